@@ -66,6 +66,8 @@ pub fn sstr() -> Vec<String> {
         "[]", "{\"a\":1}", "null", "\x7f\n", "C:\\temp",
         // brackets and braces around white space inside a string (a renderer post-pass must not touch them)
         "- [ ] x", "{\n }",
+        // content that reads like an escape sequence (a literal backslash followed by u and hex digits, by n, by a quote)
+        "\\u0041", "\\ud83d\\ude00", "\\n", "\\\"",
     ]
     .iter()
     .map(|s| s.to_string())
